@@ -1,6 +1,8 @@
 //! vh: model-based history runner for recatek/gecs (engine H and B of /verif/DESIGN.md).
 
 pub mod borrowm;
+pub mod boundary;
+pub mod c07enum;
 pub mod c10;
 pub mod comps;
 pub mod conv;
